@@ -26,7 +26,7 @@ FOCUS = {
     "output names derived from input names). Avoid everything that every ordinary program would expose at once. "
     "Note that the source tree has evolved since the earlier rounds (about 60 genuine defects were repaired), so read the current code.\n",
 }
-FOCUS[6] = FOCUS[5]
+FOCUS[6] = FOCUS[5]; FOCUS[7] = FOCUS[5]
 for pid, p in props.items():
     if only and pid not in only: continue
     txt = f"""Property {p['id']}: {p['title']}
